@@ -259,14 +259,23 @@ def semi_layouts(maxlen):
 def task(args):
     what, payload, tier = args
     p = Partial()
+    def guarded(fn, arg, name):
+        try:
+            fn(arg, tier, p)
+        except Exception as e:
+            import traceback
+            p.violation(f"C13:{name}:exception:{type(e).__name__}", dict(sampler=name, classes=list(arg) if not isinstance(arg, int) else None,
+                                                                       weights=[1.0] * arg if isinstance(arg, int) else None),
+                        f"{name} on {arg}: {e!r}\n{traceback.format_exc()[-600:]}")
+
     if what == "cb":
         for lay in payload:
-            balanced(tuple(lay), tier, p)
+            guarded(balanced, tuple(lay), "class_balanced")
     elif what == "semi":
         for lay in payload:
-            semi(tuple(lay), tier, p)
+            guarded(semi, tuple(lay), "semi")
     else:
-        weighted(payload, tier, p)
+        guarded(weighted, payload, "weighted")
     p.sample(dict(sampler=what, example=payload[0] if what != "w" else payload))
     return p
 
